@@ -51,6 +51,7 @@ def errStr : Err → String
   | .unknownRef n => "unknownRef " ++ String.ofList n
   | .hiddenTrigger t q => "hiddenTrigger " ++ String.ofList t ++ " " ++ String.ofList q
   | .noLabel n => "noLabel " ++ String.ofList n
+  | .unusableTrigger k => "unusableTrigger " ++ String.ofList k
   | .unsupported w => "unsupported " ++ w
 
 partial def ctlsOf : List Body → List (Str × Path)
@@ -71,7 +72,7 @@ def model (root : Str) (els : List El) : Json :=
         !(Lexer.refLoop false (Lexer.scanWith rules c).1) && c.length > 2 && isInfix ['$', '{'] c) then
       Json.mkObj [("outcome", "error"), ("err", "reference syntax")]
     else
-    match run dyn sub root els with
+    match run Pyxv.Gen.triggerMustBeVisibleQuestion dyn sub root els with
     | .error (.unsupported w) => Json.mkObj [("outcome", "unsupported"), ("why", Json.str w)]
     | .error e => Json.mkObj [("outcome", "error"), ("err", Json.str (errStr e))]
     | .ok o =>
